@@ -11,6 +11,7 @@ use rayon::prelude::*;
 use serde_json::json;
 use std::error::Error;
 use std::io::{self, BufReader, Cursor, ErrorKind, Read};
+use std::os::unix::fs::OpenOptionsExt;
 use std::panic::{catch_unwind, AssertUnwindSafe};
 use std::sync::atomic::{AtomicU64, Ordering::Relaxed};
 
@@ -484,7 +485,7 @@ pub fn run(ctx: &Ctx) -> i32 {
 
     // (3) other reader types: Cursor<Vec<u8>>, &[u8], file-backed
     if ctx.wants_family("reader-types") {
-        ctx.family("reader-types", targets.len() as u64 * 4 + 16, "Cursor<Vec<u8>>, &[u8], &mut &[u8] and AsepriteFile::read_file on a temporary file; read_file on four equivalent encodings of each base (3 bytes after the last frame, header size field 0 / 2^32-1 / length+1)", true);
+        ctx.family("reader-types", targets.len() as u64 * 6 + 16, "Cursor<Vec<u8>>, &[u8], &mut &[u8] and AsepriteFile::read_file on a temporary file, on a named FIFO and on an anonymous pipe through /proc/self/fd; read_file on four equivalent encodings of each base (3 bytes after the last frame, header size field 0 / 2^32-1 / length+1)", true);
         for t in &targets {
             for k in 0..4 {
                 let case = || format!("{} reader={}", t.name, ["cursor", "slice", "mut-slice", "read_file"][k]);
@@ -511,6 +512,66 @@ pub fn run(ctx: &Ctx) -> i32 {
                     Outcome::Ok(d) if d == t.baseline => ctx.outcome(hash64(&("ok", k, d))),
                     Outcome::Ok(_) => ctx.violation(Violation { family: "reader-types".into(), case: case(), sig: "result-differs".into(), detail: "sprite differs".into(), bytes: Some(t.bytes.clone()), extra: json!({}) }),
                     Outcome::Err(e) => ctx.violation(Violation { family: "reader-types".into(), case: case(), sig: format!("spurious-error:{}", err_variant(&e)), detail: format!("{}", e), bytes: Some(t.bytes.clone()), extra: json!({}) }),
+                    Outcome::Panic(m) => ctx.violation(Violation { family: "reader-types".into(), case: case(), sig: format!("panic:{}", sig_of(&m)), detail: m, bytes: Some(t.bytes.clone()), extra: json!({}) }),
+                }
+            }
+        }
+        // read_file on paths that are not regular files: a named FIFO, and an anonymous pipe reached through
+        // /proc/self/fd (their metadata length is 0; the bytes arrive as a stream)
+        for t in targets.iter().filter(|t| t.bytes.len() < 60_000) {
+            for kind in ["fifo", "proc-fd-pipe"] {
+                let case = || format!("{} read_file through a {}", t.name, kind);
+                if !ctx.wants("reader-types", &case) {
+                    continue;
+                }
+                static SEQ: AtomicU64 = AtomicU64::new(0);
+                let r: Option<std::thread::Result<asefile::Result<AsepriteFile>>> = if kind == "fifo" {
+                    let p = std::env::temp_dir().join(format!("mc-c14-fifo-{}-{}", std::process::id(), SEQ.fetch_add(1, Relaxed)));
+                    let cp = std::ffi::CString::new(p.to_string_lossy().as_bytes()).unwrap();
+                    if unsafe { libc::mkfifo(cp.as_ptr(), 0o600) } != 0 {
+                        ctx.note("mkfifo failed: FIFO reader not exercised");
+                        None
+                    } else {
+                        let (bytes, p2) = (t.bytes.clone(), p.clone());
+                        // the writer blocks in open() until the library opens the FIFO for reading
+                        let w = std::thread::spawn(move || {
+                            use std::io::Write;
+                            if let Ok(mut f) = std::fs::OpenOptions::new().write(true).open(&p2) {
+                                let _ = f.write_all(&bytes);
+                            }
+                        });
+                        let r = catch_unwind(AssertUnwindSafe(|| AsepriteFile::read_file(&p)));
+                        // if the library never opened it, release the writer
+                        let _ = std::fs::OpenOptions::new().read(true).custom_flags(libc::O_NONBLOCK).open(&p);
+                        let _ = w.join();
+                        let _ = std::fs::remove_file(&p);
+                        Some(r)
+                    }
+                } else {
+                    let mut fds = [0i32; 2];
+                    if unsafe { libc::pipe(fds.as_mut_ptr()) } != 0 {
+                        None
+                    } else {
+                        use std::os::unix::io::FromRawFd;
+                        let mut wr = unsafe { std::fs::File::from_raw_fd(fds[1]) };
+                        let bytes = t.bytes.clone();
+                        let w = std::thread::spawn(move || {
+                            use std::io::Write;
+                            let _ = wr.write_all(&bytes);
+                        });
+                        let p = std::path::PathBuf::from(format!("/proc/self/fd/{}", fds[0]));
+                        let r = catch_unwind(AssertUnwindSafe(|| AsepriteFile::read_file(&p)));
+                        unsafe { libc::close(fds[0]) };
+                        let _ = w.join();
+                        Some(r)
+                    }
+                };
+                let Some(r) = r else { continue };
+                ctx.eval(1);
+                match classify(r, &t.want) {
+                    Outcome::Ok(d) if d == t.baseline => ctx.outcome(hash64(&("ok", kind, d))),
+                    Outcome::Ok(_) => ctx.violation(Violation { family: "reader-types".into(), case: case(), sig: "result-differs".into(), detail: "sprite differs".into(), bytes: Some(t.bytes.clone()), extra: json!({}) }),
+                    Outcome::Err(e) => ctx.violation(Violation { family: "reader-types".into(), case: case(), sig: format!("spurious-error:{}", err_variant(&e)), detail: format!("the path delivers the complete file as a stream, but read_file fails: {}", e), bytes: Some(t.bytes.clone()), extra: json!({}) }),
                     Outcome::Panic(m) => ctx.violation(Violation { family: "reader-types".into(), case: case(), sig: format!("panic:{}", sig_of(&m)), detail: m, bytes: Some(t.bytes.clone()), extra: json!({}) }),
                 }
             }
